@@ -13,8 +13,10 @@ mode=conc, semaphore kinds — real goroutines, history stamped inside the guard
     run …          => <events> gauge=<peak> free=<k>     events: +t enter, -t exit, !t exit by panic, xt refused, et own Return failed
     rogue …        => borrows=<b> returns=<r> errs=<e> free=<k>    (callers that return more than they borrowed)
 kind=pool mode=seq:
-    get            => got <id> fresh=<0|1> destroyed=<ids|-> | wait
-    put <id> | putnil => ok ;  t+ <d> => now=<t> ;  stat => created=<c> idle=<id@t,…|->
+    get | getw | getpanic => got <id> fresh=<0|1> destroyed=<ids|-> | wait destroyed=… (reached cond.Wait; taken out
+                      again) | waiting destroyed=… (getw: stays blocked) | panicked destroyed=… (create panicked)
+    put <id>|@k    => ok id=<x> [woke=<y>|woke=none]   (a waiting Get resumed and took y) ;  putnil => ok
+    t+ <d> => now=<t> ;  stat => created=<c> idle=<id@t,…|-> waiters=<w>
 kind=pool mode=conc:
     run …          => <events> created=<c> idle=<k>   events: c:r create, d:r destroy, g:t:r get, p:t:r put
 -/
@@ -44,6 +46,11 @@ def seqExpected (kind : String) (s : Sem) (op : List String) : Option (Sem × St
   | ["finish", "panic"] =>
     let r := s.step .recv
     some (r.1, if r.2 = .ok then "ok" else "none", if r.2 = .ok then "finish-panic-ok" else "finish-none")
+  | ["wait"] =>
+    -- TaskRunner.Wait: the wait-group count is the number of admitted, unfinished tasks
+    if kind ≠ "runner" then none
+    else if s.used = 0 then some (s, "returns", "wait-returns-idle")
+    else some ({ s with used := 0 }, "blocked", "wait-blocks-until-all-done")
   | ["probe"] => some (s, s!"free={s.free}", if s.used = 0 then "probe-empty" else if s.used = s.cap then "probe-full" else "probe-partial")
   | _ => none
 
@@ -60,6 +67,19 @@ def seqEvent (op : List String) (obs : List String) : Option SeqEv :=
   | some "finish", ["none"] => some .retErr
   | some "probe", [f] => (kv? [f] "free").bind (·.toNat?) |>.map .free
   | _, _ => none
+
+/-- the monitor events of one line (a Return that wakes a parked borrower is a return AND a grant). -/
+def seqEvents (op : List String) (obs : List String) : Option (List SeqEv) :=
+  match op, obs with
+  | ["bwait"], ["ok"] => some [.grant]
+  | ["bwait"], ["waiting"] => some [.refuse]
+  | ["return"], ["ok", "woke=1"] => some [.retOk, .grant]
+  | ["return"], ["ok", "woke=0"] => some [.retOk]
+  | ["return"], ["ok", "woke=lost"] => some [.retOk]
+  | ["return"], ["ok", "woke=timeout"] => some [.retOk, .refuse]
+  | ["wait"], ["returns"] => some []
+  | ["wait"], ["blocked"] => some [.drained]
+  | _, _ => (seqEvent op obs).map fun e => [e]
 
 /-! ### sequential replay through the site PROGRAMS (the tables the theorems are about) -/
 
@@ -125,17 +145,46 @@ structure IRSeq where
   st      : St
   next    : Tid            -- next fresh model thread
   holders : List Tid       -- threads inside the guarded function, oldest first
+  waiters : List Tid := [] -- TimeoutLimit: threads parked in `cond.WaitWithTimeout` (row 2), oldest first
 
 /-- expected observation of one sequential operation according to the site program. -/
 def IRSeq.op (kind : String) (m : IRSeq) (op : List String) : Option (IRSeq × String) :=
   match op with
   | ["probe"] => some (m, s!"free={m.st.cap - m.st.used}")
+  | ["wait"] =>
+    -- a `Wait` thread: passes `wgWait` only when the count is 0; otherwise the harness lets every task end first
+    let t := m.next
+    let (s1, stop1) := runThread m.prog 64 m.st t [false]
+    if stop1 = .halt then some ({ m with st := s1, next := t + 1 }, "returns")
+    else if stop1 ≠ .blocked then some (m, "model-wait-neither-returns-nor-blocks")
+    else
+      let s2 := m.holders.foldl (fun st h => (finishThread m.prog st h false).1) s1
+      let (s3, stop3) := runThread m.prog 64 s2 t []
+      some ({ m with st := s3, next := t + 1, holders := [] }, if stop3 = .halt then "blocked" else "model-wait-stuck")
+  | ["bwait"] =>
+    -- the first `l.TryBorrow()` of Borrow (row 0): admitted → runs on into the guarded function;
+    -- full → the thread stands at the `WaitWithTimeout` row until a Return signals it
+    let t := m.next
+    match step m.prog m.st t false with
+    | none => some (m, "model-first-try-blocked")
+    | some s1 =>
+      if s1.pc t = 2 then some ({ m with st := s1, next := t + 1, waiters := m.waiters ++ [t] }, "waiting")
+      else
+        let (s2, stop) := runThread m.prog 64 s1 t []
+        some ({ m with st := s2, next := t + 1, holders := m.holders ++ [t] }, if stop = .user then "ok" else "model-thread-not-admitted")
   | ["return"] | ["finish"] | ["finish", "panic"] =>
     match m.holders with
     | [] => some (m, if op.head? = some "return" then "err" else "none")
     | t :: rest =>
       let (s', stop) := finishThread m.prog m.st t (op = ["finish", "panic"])
-      some ({ m with st := s', holders := rest }, if stop = .halt then "ok" else "model-thread-did-not-finish")
+      match m.waiters with
+      | [] => some ({ m with st := s', holders := rest }, if stop = .halt then "ok" else "model-thread-did-not-finish")
+      | w :: ws =>
+        -- the Signal of the returning thread is received by the oldest parked one: choice `true` at the
+        -- WaitWithTimeout row (signalled), then `ok && l.TryBorrow()` finds the permit just returned
+        let (s2, stop2) := runThread m.prog 64 s' w [true]
+        some ({ m with st := s2, holders := rest ++ [w], waiters := ws },
+              if stop = .halt ∧ stop2 = .user then "ok woke=1" else "model-handover-failed")
   | [o] =>
     match entryChoices kind o with
     | none => none
@@ -159,6 +208,7 @@ def IRSeq.op (kind : String) (m : IRSeq) (op : List String) : Option (IRSeq × S
   | _ => none
 def runSeq (r : Report) (s : Section) (kind : String) (n : Nat) : Report := Id.run do
   let mut sem := Sem.init n
+  let mut waiters := 0       -- TimeoutLimit: Borrow calls parked in cond.WaitWithTimeout
   let mut mon : SeqMon := { cap := n, held := 0 }
   let mut ir : Option IRSeq := (siteProgram kind).map fun p => { prog := p, st := St.init n, next := 0, holders := [] }
   let mut r := r
@@ -168,11 +218,22 @@ def runSeq (r : Report) (s : Section) (kind : String) (n : Nat) : Report := Id.r
     if impl = "leaked" ∨ impl = "stuck" then
       -- the harness gave up waiting: the permit of an ended holder never came back / a blocked call never resumed
       r := r.violation s.idx l.idx s!"kind={kind} op=[{joinSp l.op}] impl=[{impl}] capacity leaked: the permit of an ended holder was not released"
-    match seqExpected kind sem l.op with
+    -- TimeoutLimit with parked borrowers (explicit Cond model, ModelTL): `bwait` = Borrow with a long timeout
+    let expected : Option (Sem × String × String) :=
+      if kind = "tlimit" ∧ l.op = ["bwait"] then
+        let q := sem.step .tryBorrow
+        if q.2 = .ok then some (q.1, "ok", "bwait-admitted") else some (sem, "waiting", "bwait-parks")
+      else if kind = "tlimit" ∧ l.op = ["return"] ∧ waiters > 0 ∧ sem.used > 0 then
+        -- Return frees one permit, its Signal reaches one parked borrower, whose retry takes the permit
+        some (sem, "ok woke=1", "return-wakes-parked-borrower")
+      else seqExpected kind sem l.op
+    match expected with
     | none => r := r.mismatch s.idx l.idx "bad-op" (joinSp l.op)
     | some (sem', exp, br) =>
       r := r.addCover s!"{kind}-{br}"
       if exp ≠ impl then r := r.mismatch s.idx l.idx exp impl
+      if br = "bwait-parks" then waiters := waiters + 1
+      if br = "return-wakes-parked-borrower" then waiters := waiters - 1
       sem := sem'
     -- the same operation through the site program (the table the interleaving theorems are about)
     match ir with
@@ -185,13 +246,22 @@ def runSeq (r : Report) (s : Section) (kind : String) (n : Nat) : Report := Id.r
         if m'.st.used ≠ sem.used then r := r.mismatch s.idx l.idx s!"site-program used={m'.st.used}" s!"sem used={sem.used}"
         r := r.addCover s!"{kind}-site-program-ops"
         ir := some m'
-    match seqEvent l.op l.obs with
+    match (if l.op = ["wait"] ∧ (l.obs.head? = some "returns-early" ∨ l.obs = ["stuck"]) then some [] else seqEvents l.op l.obs) with
     | none => r := r.mismatch s.idx l.idx "parsable-observation" impl
-    | some ev =>
-      match mon.check ev with
-      | some msg => r := r.violation s.idx l.idx s!"kind={kind} op=[{joinSp l.op}] impl=[{impl}] {msg}"
-      | none => pure ()
-      mon := mon.step ev
+    | some evs =>
+      for ev in evs do
+        match mon.check ev with
+        | some msg => r := r.violation s.idx l.idx s!"kind={kind} op=[{joinSp l.op}] impl=[{impl}] {msg}"
+        | none => pure ()
+        mon := mon.step ev
+      if l.op = ["wait"] then
+        match l.obs with
+        | "returns-early" :: _ => r := r.violation s.idx l.idx s!"kind={kind} Wait returned while admitted tasks were still running ({impl})"
+        | ["stuck"] => r := r.violation s.idx l.idx s!"kind={kind} Wait does not return although no admitted task is running any more (wait-group count leaked)"
+        | _ => pure ()
+      -- a Return that succeeded while borrowers are parked has to hand the permit on
+      if l.op = ["return"] ∧ waiters > 0 ∧ (l.obs = ["ok", "woke=0"] ∨ l.obs = ["ok", "woke=lost"] ∨ l.obs = ["ok"]) then
+        r := r.violation s.idx l.idx s!"kind={kind} Return woke none of the {waiters} parked borrowers: a permit is free while requests stay blocked (lost wake-up)"
   return r
 
 /-! ### concurrent semaphore sections -/
@@ -219,10 +289,15 @@ def runHistory (r : Report) (sec line : Nat) (kind : String) (n : Nat) (obs : Li
   let mut bad := false
   for tok in obs do
     if bad then break
+    if (kv? [tok] "early").isSome then
+      r := r.violation sec line s!"kind={kind} Wait/Start returned while {(kv? [tok] "early").getD "?"} holders were still inside the guarded function"
+      bad := true
+      break
     match kv? [tok] "free", kv? [tok] "gauge" with
     | some v, _ =>
-      -- mr / fx: the limiting channel is a local variable of the library function, nothing to measure afterwards
-      if v = "unobservable" ∧ (kind = "mr" ∨ kind = "fx") then freeSkip := true
+      -- mr / fx / WorkerGroup: the limiting channel is a local variable of the library function (or there is
+      -- none), nothing to measure afterwards
+      if v = "unobservable" ∧ (kind = "mr" ∨ kind = "fx" ∨ kind = "wgroup") then freeSkip := true
       else
         match v.toNat? with
         | some k => free := some k
@@ -278,6 +353,8 @@ def runHistory (r : Report) (sec line : Nat) (kind : String) (n : Nat) (obs : Li
       | .ok => pure ()
       | .malformed msg => r := r.mismatch sec line "quiescent end" msg
       | .violation msg => r := r.violation sec line s!"kind={kind} {msg}"
+  if kind = "wgroup" ∧ !bad ∧ enters ≠ n then
+    r := r.violation sec line s!"kind=wgroup {enters} jobs were started, workers={n}"
   r := r.addCover s!"{kind}-conc-enters" enters
   if panics > 0 then r := r.addCover s!"{kind}-conc-panic-exits" panics
   if refusals > 0 then r := r.addCover s!"{kind}-conc-refusals" refusals
@@ -321,9 +398,15 @@ def poolStat (p : Pool) : String :=
   let idle := if p.idle = [] then "-" else ",".intercalate (p.idle.map fun nd => s!"{nd.item}@{nd.lastUsed}")
   s!"created={p.created} idle={idle}"
 
+def poolStatW (p : Pool) (waiters : Nat) : String := s!"{poolStat p} waiters={waiters}"
+
+/-- destroyed list of an observation token `destroyed=<csv>` -/
+def obsDestroyed (tok : String) : Option (List Nat) := (kv? [tok] "destroyed").bind parseCsv
+
 def runPoolSeq (r : Report) (s : Section) (limit maxAge : Nat) : Report := Id.run do
   let mut p := Pool.init limit maxAge
   let mut now := 0
+  let mut waiters := 0           -- Get calls that reached `cond.Wait()` and are still there
   let mut mon : PoolMon := { limit := limit, alive := [], held := [], dead := [] }
   let mut breached := false
   let mut r := r
@@ -332,43 +415,96 @@ def runPoolSeq (r : Report) (s : Section) (limit maxAge : Nat) : Report := Id.ru
     let impl := joinSp l.obs
     let mut evs : List PEv := []
     match l.op with
-    | ["get"] =>
-      let (p', res) := p.get now
+    | ["get"] | ["getw"] | ["getpanic"] =>
+      let keep := l.op = ["getw"]
+      let cpanic := l.op = ["getpanic"]
+      let (p', res, panicked) := if cpanic then p.getCreatePanics now else ((p.get now).1, (p.get now).2, false)
       match res with
       | .got item fresh d =>
-        let exp := s!"got {item} fresh={if fresh then 1 else 0} destroyed={csv d}"
-        r := r.addCover (if fresh then "pool-get-create" else "pool-get-reuse")
+        let exp := if panicked then s!"panicked destroyed={csv d}"
+                   else s!"got {item} fresh={if fresh then 1 else 0} destroyed={csv d}"
+        r := r.addCover (if panicked then "pool-create-panics-created-stays" else if fresh then "pool-get-create" else "pool-get-reuse")
         if d ≠ [] then r := r.addCover "pool-get-destroyed-expired" d.length
+        if d.length ≥ 2 then r := r.addCover "pool-get-destroyed-several-at-once"
+        if fresh ∧ d ≠ [] then r := r.addCover "pool-get-create-after-expiry"
+        if !fresh ∧ d ≠ [] then r := r.addCover "pool-get-reuse-behind-expired"
+        -- age exactly maxAge is NOT expired (`lastUsed+maxAge < now` is strict)
+        if !fresh ∧ maxAge > 0 then
+          match p.idle.find? (·.item = item) with
+          | some nd => if nd.lastUsed + maxAge = now then r := r.addCover "pool-get-reuse-at-exactly-maxage"
+          | none => pure ()
         if exp ≠ impl then r := r.mismatch s.idx l.idx exp impl
         p := p'
       | .wait d =>
-        r := r.addCover "pool-get-would-wait"
-        if "wait" ≠ impl then r := r.mismatch s.idx l.idx "wait" impl
-        if d ≠ [] then r := r.mismatch s.idx l.idx "no destruction before waiting" (csv d)
+        r := r.addCover (if keep then "pool-get-waits-kept" else "pool-get-would-wait")
+        let exp := s!"{if keep then "waiting" else "wait"} destroyed={csv d}"
+        if exp ≠ impl then r := r.mismatch s.idx l.idx exp impl
+        p := p'
+        if keep then waiters := waiters + 1
       -- monitor on the implementation's own observation
       match l.obs with
       | ["got", id, fr, ds] =>
-        match id.toNat?, (kv? [ds] "destroyed").bind parseCsv with
+        match id.toNat?, obsDestroyed ds with
         | some i, some dl =>
           evs := dl.map PEv.destroy ++ (if fr = "fresh=1" then [PEv.create i] else []) ++ [PEv.get 0 i]
         | _, _ => r := r.mismatch s.idx l.idx "parsable-observation" impl
+      | ["panicked", ds] =>
+        match obsDestroyed ds with
+        | some dl =>
+          evs := dl.map PEv.destroy
+          -- the caller contract "create does not panic" is broken: `created` stays incremented although no
+          -- resource exists (documented observation, outside the property's quantifier) — capacity claims end here
+          if !breached then
+            breached := true
+            r := r.addCover "pool-contract-breach"
+        | none => r := r.mismatch s.idx l.idx "parsable-observation" impl
+      | [w, ds] =>
+        if w = "wait" ∨ w = "waiting" then
+          match obsDestroyed ds with
+          | some dl =>
+            evs := dl.map PEv.destroy
+            if mon.held.length < limit ∧ !breached then
+              r := r.violation s.idx l.idx s!"kind=pool Get waits although only {mon.held.length} of limit={limit} resources are in use (capacity leaked)"
+          | none => r := r.mismatch s.idx l.idx "parsable-observation" impl
+        else r := r.mismatch s.idx l.idx "parsable-observation" impl
       | ["stuck"] =>
         if !breached then
-          r := r.violation s.idx l.idx s!"kind=pool Get waits for ever although only {mon.held.length} of limit={limit} resources are in use (capacity leaked)"
-      | ["wait"] =>
-        if mon.held.length < limit ∧ !breached then
-          r := r.violation s.idx l.idx s!"kind=pool Get would wait although only {mon.held.length} of limit={limit} resources are in use"
+          r := r.violation s.idx l.idx s!"kind=pool Get neither returns nor waits on the condition variable ({mon.held.length} of limit={limit} in use)"
       | _ => r := r.mismatch s.idx l.idx "parsable-observation" impl
     | ["put", _] =>
       -- `put @k` / `put <id>`: the harness resolves which resource it gives back and prints it (`ok id=<x>`)
       match l.obs with
       | ["skip"] => r := r.addCover "pool-put-skip"
-      | ["ok", idtok] =>
+      | "ok" :: idtok :: rest =>
         match (kv? [idtok] "id").bind (·.toNat?) with
         | some i =>
           p := p.put i now
           r := r.addCover "pool-put"
           evs := [PEv.put 0 i]
+          if waiters = 0 then
+            if rest ≠ [] then r := r.mismatch s.idx l.idx s!"ok id={i}" impl
+          else
+            -- `p.cond.Signal()`: one waiting Get resumes its loop and takes the head
+            let (p', res) := p.get now
+            match res with
+            | .got item false [] =>
+              r := r.addCover "pool-put-wakes-waiter"
+              if rest ≠ [s!"woke={item}"] then r := r.mismatch s.idx l.idx s!"ok id={i} woke={item}" impl
+              p := p'
+              waiters := waiters - 1
+            | _ => r := r.mismatch s.idx l.idx "model: the woken Get takes the resource just put" impl
+            match rest with
+            | [wtok] =>
+              match kv? [wtok] "woke" with
+              | some "none" =>
+                if !breached then
+                  r := r.violation s.idx l.idx s!"kind=pool Put of resource {i} woke no waiting Get: the resource is idle while a request stays blocked (capacity not available)"
+              | some w =>
+                match w.toNat? with
+                | some wi => evs := evs ++ [PEv.get 0 wi]
+                | none => r := r.mismatch s.idx l.idx "woke=<nat>" impl
+              | none => r := r.mismatch s.idx l.idx "woke=<nat>" impl
+            | _ => r := r.mismatch s.idx l.idx "ok id=<nat> woke=<nat>" impl
         | none => r := r.mismatch s.idx l.idx "ok id=<nat>" impl
       | _ => r := r.mismatch s.idx l.idx "ok id=<nat>" impl
     | ["putnil"] =>
@@ -383,11 +519,18 @@ def runPoolSeq (r : Report) (s : Section) (limit maxAge : Nat) : Report := Id.ru
       | none => r := r.mismatch s.idx l.idx "bad-op" (joinSp l.op)
     | ["stat"] =>
       r := r.addCover "pool-stat"
-      if impl ≠ poolStat p then r := r.mismatch s.idx l.idx (poolStat p) impl
+      if impl ≠ poolStatW p waiters then r := r.mismatch s.idx l.idx (poolStatW p waiters) impl
       if !breached then
         match (kv? l.obs "created").bind (·.toInt?) with
         | some c =>
           if c > (limit : Int) then r := r.violation s.idx l.idx s!"kind=pool created={c} exceeds limit={limit}"
+          -- `created` counts exactly the living resources: in use + idle
+          match (kv? l.obs "idle") with
+          | some idl =>
+            let nidle := if idl = "-" then 0 else (idl.splitOn ",").length
+            if c ≠ ((mon.held.length + nidle : Nat) : Int) then
+              r := r.violation s.idx l.idx s!"kind=pool created={c} but {mon.held.length} resources are in use and {nidle} idle (count leaked)"
+          | none => pure ()
         | none => pure ()
     | _ => r := r.mismatch s.idx l.idx "bad-op" (joinSp l.op)
     for ev in evs do
@@ -468,11 +611,84 @@ def runPoolConc (r : Report) (s : Section) (limit : Nat) : Report := Id.run do
     | _ => r := r.mismatch s.idx l.idx "bad-op" (joinSp l.op)
   return r
 
-def semKinds : List String := ["limit", "tlimit", "runner", "maxconns", "mr", "fx"]
+/-! ### the REST engine: `RestConf.MaxConns` through `buildChainWithNativeMiddlewares` (one latch per route) -/
+
+/-- the lines of a sequential engine section that address route `rt`, with the route token removed. -/
+def projectRoute (s : Section) (rt : Nat) : Section :=
+  { s with lines := s.lines.filterMap fun l =>
+      match l.op with
+      | o :: r :: rest => if r.toNat? = some rt then some { l with op := o :: rest } else none
+      | _ => none }
+
+/-- no limit configured (middleware off or `MaxConns <= 0`): every request is admitted. -/
+def runUnlimited (r : Report) (s : Section) : Report := Id.run do
+  let mut r := r
+  let mut inside := 0
+  for l in s.lines do
+    r := { r with ops := r.ops + 1 }
+    let impl := joinSp l.obs
+    let exp := match l.op with
+      | ["try"] => "ok"
+      | ["finish"] | ["finish", "panic"] => if inside > 0 then "ok" else "none"
+      | ["probe"] => "free=unlimited"
+      | _ => "bad-op"
+    if l.op = ["try"] then inside := inside + 1
+    if l.op.head? = some "finish" ∧ inside > 0 then inside := inside - 1
+    r := r.addCover "engine-unlimited-ops"
+    if exp ≠ impl then r := r.mismatch s.idx l.idx exp impl
+    if impl = "refused" then
+      r := r.violation s.idx l.idx "kind=engine request refused (503) although no connection limit is configured"
+  return r
+
+def splitRoutes (obs : List String) : List (List String) × Option String :=
+  let rec go (cur : List String) (acc : List (List String)) (glob : Option String) : List String → List (List String) × Option String
+    | [] => ((if cur = [] then acc else acc ++ [cur]), glob)
+    | t :: rest =>
+      if t.startsWith "route=" then go [] (if cur = [] then acc else acc ++ [cur]) glob rest
+      else match kv? [t] "global" with
+        | some g => go cur acc (some g) rest
+        | none => go (cur ++ [t]) acc glob rest
+  go [] [] none obs
+
+def runEngine (r : Report) (s : Section) (mode : String) : Report := Id.run do
+  let routes := kvNat s.cfg "routes" 1
+  let mw := kvNat s.cfg "mw" 1 = 1
+  let mc := kvInt s.cfg "n" 0
+  let cap := engineCap mw mc
+  let mut r := r.addCover (match cap with
+    | none => if mw then "engine-maxconns-nonpositive-no-limit" else "engine-middleware-off-no-limit"
+    | some _ => "engine-limit-per-route")
+  if mode = "seq" then
+    let covered := (List.range routes).foldl (fun k rt => k + (projectRoute s rt).lines.length) 0
+    if covered ≠ s.lines.length then r := r.mismatch s.idx 0 "every op names a route below routes=" (joinSp s.cfg)
+    for rt in List.range routes do
+      match cap with
+      | some c => r := runSeq r (projectRoute s rt) "maxconns" c
+      | none => r := runUnlimited r (projectRoute s rt)
+  else
+    match cap with
+    | none => r := r.mismatch s.idx 0 "a limit for concurrent engine sections" (joinSp s.cfg)
+    | some c =>
+      for l in s.lines do
+        r := { r with ops := r.ops + 1 }
+        let (blocks, glob) := splitRoutes l.obs
+        if blocks.length ≠ routes then r := r.mismatch s.idx l.idx s!"{routes} route blocks" (toString blocks.length)
+        for b in blocks do
+          r := runHistory r s.idx l.idx "maxconns" c b
+        match glob.bind (·.toNat?) with
+        | some g =>
+          -- one latch PER ROUTE: all routes together may hold up to routes·MaxConns requests
+          if routes * c < g then r := r.violation s.idx l.idx s!"kind=engine {g} requests inside at once, routes={routes} MaxConns={c}"
+          if c < g then r := r.addCover "engine-observed-more-than-MaxConns-inside-across-routes"
+        | none => r := r.mismatch s.idx l.idx "global=<nat>" (joinSp l.obs)
+  return r
+
+def semKinds : List String := ["limit", "tlimit", "runner", "maxconns", "mr", "fx", "wgroup"]
 
 def runSection (r : Report) (s : Section) : Report :=
   let kind := kvStr s.cfg "kind"
   let mode := kvStr s.cfg "mode"
+  if kind = "engine" then runEngine r s mode else
   match (kv? s.cfg "n").bind (·.toNat?) with
   | none => r.mismatch s.idx 0 "cfg n=<nat>" (joinSp s.cfg)
   | some n =>
@@ -482,6 +698,12 @@ def runSection (r : Report) (s : Section) : Report :=
       else if mode = "conc" then runPoolConc r s n
       else r.mismatch s.idx 0 "mode" mode
     else if semKinds.contains kind then
+      -- mr / fx with `req=<k>`: WithWorkers(k) was called; the capacity has to be what the decision table says
+      let r := match (kv? s.cfg "req").bind (·.toInt?) with
+        | some k =>
+          let r := r.addCover (if k < 1 then s!"{kind}-withworkers-floored-to-min" else s!"{kind}-withworkers-as-given")
+          if effWorkers k = (n : Int) then r else r.mismatch s.idx 0 s!"n={effWorkers k} for WithWorkers({k})" s!"n={n}"
+        | none => r
       if mode = "seq" then runSeq r s kind n
       else if mode = "conc" then runConc r s kind n
       else r.mismatch s.idx 0 "mode" mode
